@@ -177,6 +177,8 @@ BUILTIN_EXC_BASES = {
     "NotImplementedError": "RuntimeError", "RuntimeError": "Exception", "ZeroDivisionError": "ArithmeticError",
     "ArithmeticError": "Exception", "OverflowError": "ArithmeticError", "OSError": "Exception",
     "StopIteration": "Exception", "AssertionError": "Exception", "UnicodeDecodeError": "ValueError",
+    "UnboundLocalError": "NameError", "NameError": "Exception", "UnicodeError": "ValueError", "UnicodeEncodeError": "ValueError",
+    "FloatingPointError": "ArithmeticError", "BufferError": "Exception", "EOFError": "Exception", "MemoryError": "Exception",
     "Exception": "BaseException", "BaseException": None, "Warning": "Exception", "UserWarning": "Warning",
     "ImportError": "Exception", "RecursionError": "RuntimeError", "timeout": "OSError",
 }
@@ -1386,6 +1388,23 @@ def _b_sum(it, start=0):
     return sum(it, start)
 
 
+_NO_DEFAULT = object()
+
+
+def _b_next(it, default=_NO_DEFAULT):
+    """next() on the interpreter's eager sequences (generator expressions are materialised as lists): the first
+    element, or StopIteration / the default when empty.  Only the first call on a given sequence is meaningful."""
+    if isinstance(it, (list, tuple)):
+        if len(it):
+            return it[0]
+        if default is _NO_DEFAULT:
+            raise StopIteration()
+        return default
+    if default is _NO_DEFAULT:
+        return next(it)
+    return next(it, default)
+
+
 _ITER_BUILTINS = (list, tuple, set, frozenset, sorted, min, max, all, any, sum, dict)
 
 _BUILTINS = {
@@ -1395,5 +1414,8 @@ _BUILTINS = {
     "sum": _b_sum, "sorted": sorted, "reversed": lambda x: list(reversed(x)), "enumerate": lambda x, s=0: list(enumerate(x, s)),
     "zip": lambda *a: list(zip(*a)), "abs": abs, "repr": repr, "bytes": bytes, "print": lambda *a, **k: None,
     "divmod": divmod, "round": round, "callable": callable, "NotImplemented": NotImplemented,
+    "next": _b_next, "iter": lambda x: x, "map": lambda f, *a: list(map(f, *a)), "filter": lambda f, a: list(filter(f, a)),
+    "ord": ord, "chr": chr, "hex": hex, "bin": bin, "pow": pow, "id": id, "hash": hash, "format": format, "ascii": ascii,
+    "memoryview": memoryview, "bytearray": bytearray, "slice": slice, "object": object,
     "True": True, "False": False, "None": None,
 }
